@@ -245,6 +245,17 @@ def worker(k, todo, jobs):
                         break   # detected; the remaining checks are not needed for the verdict
                     if code == 3 and ("timeout" in inc or any("watchdog" in x for x in inc)):
                         rec["hang"] = True   # the mutant makes the library hang: the other checks would only time out as well
+                        if c != "C03" and "C03" in FILES[m["file"]] and "C03" not in rec["checks"]:
+                            # ... except C03, whose property is "never hangs": it identifies the input
+                            e3 = dict(e2, VERIF_CALL_TIMEOUT="120")
+                            pr = subprocess.Popen(["python3", "-m", "mon", "check", "C03", "--tier", "quick"], cwd="/verif", stdout=subprocess.PIPE, stderr=subprocess.DEVNULL, text=True, env=e3, start_new_session=True)
+                            try:
+                                so, _ = pr.communicate(timeout=3000)
+                                rec["checks"]["C03"] = {"rc": pr.returncode, "classes": sorted({l.split("class=")[1].split(" ")[0] for l in so.splitlines() if l.startswith("  class=")})[:4], "inconclusive": [], "s": 0}
+                            except subprocess.TimeoutExpired:
+                                import signal
+                                os.killpg(pr.pid, signal.SIGKILL)
+                                pr.wait()
                         break
                 rec["detected_by"] = [c for c, v in rec["checks"].items() if v["rc"] == 1]
             rec["wall_s"] = round(time.time() - t0)
